@@ -1337,4 +1337,50 @@ Proof.
     + intros Hsame. apply Nss. apply chain_dir_slots_ext. exact Hsame.
     + destruct Hwhy as (a & st & p & Y1 & Y2 & Y3 & Y4 & Y5). exists a, st, p. rewrite Elen in Y5. repeat split; assumption.
 Qed.
+
+(* ACCOUNTING, every outcome (C05).  Whatever create_file answers: the chain afterwards is the old one plus clusters that were free and
+   are allocated now; no other entry became free or allocated; count_free dropped by exactly their number; the FS-info latch is
+   consistent with the new table.  Behind a passed existence check NotEnoughSpace means that NO cluster is free. *)
+Lemma cnt_zero f : forall n c, (forall x, c <= x < c + N.of_nat n -> is_free (f x) = false) -> cnt f c n = 0.
+Proof.
+  induction n as [|n IH]; intros c H; cbn [cnt]; [reflexivity|]. rewrite (H c) by lia. rewrite IH; [reflexivity|].
+  intros x Hx. apply H. lia.
+Qed.
+
+Theorem vol_grow_accounting im fi l name now r im' fi' l' ra ed children labels rb :
+  let g := parse_geom im in
+  chain_geom g -> FatProofs.bytes_ok im -> fi_inv fstore (val_ft (ft_of g)) (store_of g im) fi (g_clusters g) ->
+  Wf.wf_issues fold im = [] -> v_root (abs im) = ra ++ NDir ed (Some l) children [] labels :: rb ->
+  chain_small g l -> TimeProofs.datetime_valid now = true ->
+  vol_create_file_grow upper oem im fi l name now = (r, (im', fi', l')) ->
+  exists news,
+    l' = l ++ news /\ NoDup news /\
+    (forall x, In x news -> 2 <= x < g_clusters g + 2 /\ fat_val g im x = FFree /\ fat_val g im' x <> FFree) /\
+    (forall x, 2 <= x < g_clusters g + 2 -> ~ In x news -> (fat_val g im' x = FFree <-> fat_val g im x = FFree)) /\
+    count_free g im' + N.of_nat (length news) = count_free g im /\
+    FatProofs.bytes_ok im' /\ fi_inv fstore (val_ft (ft_of g)) (store_of g im') fi' (g_clusters g) /\
+    (news = [] -> fi' = fi) /\
+    (forall a, check_for_existence upper oem (chain_dir_slots g im l) name (Some false) = Ok (Fresh a) -> r = Err ENotEnoughSpace ->
+       count_free g im' = 0) /\
+    create_entry upper oem false (Chained (cluster_slots g)) (length news) (chain_dir_slots g im l) name 0 None now false
+      = (r, chain_dir_slots g im' l').
+Proof.
+  intros g Hg Hb Hfi Hwf Hroot Hsm Hnow H.
+  destruct (grow_premises im fi l ra ed children labels rb Hg Hb Hfi Hwf Hroot) as [HI _]. fold g in HI.
+  destruct (grow_create_unfold upper oem im fi l name now _ im' fi' l' Hg HI Hsm Hnow H) as (news & GS & CE & Hfull). fold g in CE, Hfull.
+  destruct GS as (E1 & HI' & Nn & Hfree & Hfat & Hfr & Hfr0 & Hcnt). fold g in E1, HI', Hfree, Hfat, Hfr, Hfr0, Hcnt.
+  destruct HI' as [Hb' Hfi' Hck' Hlk']. destruct HI as [_ _ _ Hlk].
+  exists news. split; [exact E1|]. split; [exact Nn|]. split.
+  { intros x Hx. destruct (Hfree x Hx) as [R F]. split; [exact R|]. split; [exact F|].
+    apply (linked_in g im' l' x Hlk'). rewrite E1. apply in_or_app. right. exact Hx. }
+  split.
+  { intros x R Hn. destruct (N.eq_dec x (last l 0)) as [->|Hne].
+    - destruct (linked_last g im l Hlk) as [Hin Heoc]. split; intros F.
+      + exfalso. apply (proj2 (linked_in g im' l' _ Hlk' ltac:(rewrite E1; apply in_or_app; left; exact Hin)) F).
+      + rewrite Heoc in F. discriminate.
+    - rewrite (Hfat x R Hn (or_intror Hne)). reflexivity. }
+  split; [exact Hcnt|]. split; [exact Hb'|]. split; [exact Hfi'|]. split; [intros En; exact (proj1 (Hfr0 En))|]. split; [|exact CE].
+  intros a Ha Hr. rewrite count_free_cnt. apply cnt_zero. intros x Hx.
+  pose proof (Hfull a Ha Hr x ltac:(lia)) as F. destruct (fat_val g im' x); try reflexivity. contradiction.
+Qed.
 End GrowMain.
